@@ -2,6 +2,7 @@ mod c01;
 mod c06;
 mod syn;
 mod c10;
+mod c12;
 mod c14;
 mod c11;
 mod cborref;
@@ -75,6 +76,7 @@ fn main() {
       "C01" => c01::replay(&j["case"]),
       "C14" => c14::replay(&j["case"], j["kind"].as_str().unwrap_or("")),
       "C06" => c06::replay(&j["case"]),
+      "C12" => c12::replay(&j["case"], j["kind"].as_str().unwrap_or("")),
       "C10" => c10::replay(&j["case"], j["kind"].as_str().unwrap_or("")),
       _ => {
         eprintln!("ENGINE-ERROR no replay for {prop}");
@@ -101,6 +103,7 @@ fn main() {
     "C01" => c01::run(tier),
     "C10" => c10::run(tier),
     "C06" => c06::run(tier),
+    "C12" => c12::run(tier),
     "C14" => c14::run(tier),
     x => {
       eprintln!("ENGINE-ERROR unknown property {x}");
